@@ -124,8 +124,8 @@ def _run(ctx):
                     ok = None
             elif kind == "explicit-err":
                 # the LP-token-only guard in the Receive handler, and decode failure
-                if f.path == recv.path and ("Unauthorized" in detail or "ContractError::Std" in detail or "AssetMismatch" in detail):
-                    ok = "guard"
+                if f.path == recv.path:
+                    ok = "guard"      # which conditions may lead to a rejection in the arm is decided by the arm-condition rule below
                 if role == "helper" and "generic_err" in detail:
                     ok = None
             elif kind == "assert":
